@@ -421,7 +421,8 @@ class Compiler:
             try:
                 with open_device(filepath, "wb") as f:
                     f.write(result)
-            except IOError as ex:
+            except (IOError, ValueError) as ex:
+                # ValueError is raised for paths with embedded null bytes or lone surrogates
                 reports.error(
                     "io-error",
                     (ctx_start, ctx_end, f"Could not write to '{filepath}':\n{ex}")
